@@ -204,10 +204,15 @@ Proof. exact cursor_rich. Qed.
 (* a FramebufferUpdate whose rectangles each decode (rect_steps) is processed completely: incremental
    update request sent, FinishedFrameBufferUpdate reported; a Raw rectangle is such a step *)
 Theorem C07_update_framing : forall s rs s' ts,
-  rects_run s rs s' -> zlen rs < 65535 -> c_canfur s' = true ->
+  rects_run s rs s' -> zlen rs < 65535 -> c_canfur s' = true -> c_reqrs s' = false ->
   handle_msg s (toks (fbu_header (zlen rs)) ++ concat rs ++ ts)
   = Ok tt (add_ev (add_out s' (let '(x, y, w, h) := c_upd s' in fur_bytes 1 x y w h)) EvFinished) ts.
 Proof. exact fbu_run. Qed.
+
+(* SendExtDesktopSize (application call): while the SetDesktopSize it sent is unanswered ([c_reqrs]) the incremental
+   update request is withheld; an ExtendedDesktopSize rectangle - whatever size it announces - ends that state *)
+Theorem C07_update_request_withheld : forall s ts, c_reqrs s = true -> send_incr s ts = Ok tt s ts.
+Proof. exact send_incr_pending. Qed.
 
 Theorem C07_update_rect_raw : forall s x y w h rows,
   st_wf s -> bypp_ok s -> c_w s <= 65535 -> c_h s <= 65535 ->
